@@ -4,6 +4,13 @@ import Dcg.Proofs.Repr
 import Dcg.Model.Sites
 import Dcg.Gen.EscTables
 import Dcg.Gen.Templates
+import Dcg.Proofs.TemplateLex
+import Dcg.Proofs.TemplateCheckLex
+import Dcg.Proofs.TemplateCheckTable
+import Dcg.Proofs.TemplateSites
+import Dcg.Proofs.TemplateLexDoc
+import Dcg.Model.CodeSites
+import Dcg.Gen.CodeSites
 /-
 C10 — text taken from the input ends up as data, never as code.
 Only property theorems live here; helper lemmas are in Dcg/Proofs/Escape.lean.
@@ -134,5 +141,150 @@ theorem templates_end_neutral :
 theorem comment_ends_at_newline :
     comment ("a\nimport os".toList ++ ['\n']) = ("a".toList, "import os\n".toList) := by
   decide
+
+
+/-! ### The lexical analysis of the templates, in Lean, for all environments
+
+The templates are part of the model (`Gen/TemplateAst`, regenerated from the sources by jinja2's
+own parser) and are given meaning by the interpreter `Model.Template.renderTemplate`.  The
+lexical-state analysis is an abstract interpretation of the template AST over the lexer automaton
+`Model/TemplateLex.LQ`, proved sound with respect to the interpreter once and for all
+(`Proofs/TemplateAbs.absL_sound`) and evaluated by the kernel on every template. -/
+
+section TemplateLex
+open Dcg.Model.TemplateSyntax Dcg.Model.Template Dcg.Model.TemplateAbs Dcg.Model.TemplateLex
+open Dcg.Proofs.TemplateAbs Dcg.Proofs.TemplateLex Dcg.Proofs.TemplateLexDoc
+
+/-- **A description cannot leave its docstring — for EVERY text, indentation included.** Read
+inside a `\"\"\"` literal, the value `x | escape_docstring | indent(w)` leaves the lexer inside that
+literal with at most two quotes pending (which the template's closing line resolves): the escape
+rules out three quotes in a row and a dangling backslash, and `indent` rewrites only line breaks,
+none of which follows a backslash.  (`docstring_literal_exact` above reads the literal back exactly
+but for the un-indented text; this covers what the templates really write.) -/
+theorem docstring_value_cannot_leave (w : Nat) (x : List Char) :
+    lexAuto.run (.t true) (Dcg.Model.Template.indentStr w (escDoc 0 x)) = LQ.t true ∨
+    lexAuto.run (.t true) (Dcg.Model.Template.indentStr w (escDoc 0 x)) = LQ.t1 true ∨
+    lexAuto.run (.t true) (Dcg.Model.Template.indentStr w (escDoc 0 x)) = LQ.t2 true :=
+  docstring_value_stays_inside w x
+
+/-- the hypothesis of the template theorems: every interpolated value EXCEPT docstring text
+(`… | escape_docstring | indent(w)` at a docstring site, for which nothing is assumed) is lexically
+neutral for the class of its site -/
+def NeutralValues (o : Out) : Prop := ∀ p ∈ o.slots, docSite p.1 = false → LexHyp p.1 p.2
+
+theorem neutralValues_all {ctx : List (String × Val)} {t : List Tpl} {o : Out}
+    (hr : renderTemplate ctx t = .ok o) (h : NeutralValues o) : ∀ p ∈ o.slots, LexHyp p.1 p.2 := by
+  intro p hp
+  cases hd : docSite p.1 with
+  | true => exact lexHyp_of_docSite (Dcg.Proofs.TemplateSlots.renderTemplate_fromEval hr) p hp hd
+  | false => exact h p hp hd
+
+/-- every template lies inside the modelled Jinja fragment (no `unsupported` node) -/
+theorem templates_in_fragment :
+    Dcg.Gen.TemplateAst.templates.all (fun t => Tpl.unsupportedCountL t.2 == 0) = true :=
+  Dcg.Proofs.TemplateCheckLex.no_unsupported
+
+/-- **Input text cannot leave its lexical context — for every template and EVERY environment.**
+In any rendering in which each interpolated value other than docstring text is lexically neutral
+for the class of its site (`NeutralValues`; for docstring text nothing is assumed,
+`docstring_value_cannot_leave`) (`LexHyp`: identifiers/type hints/repr values are neutral in code state, escaped keys inside
+`'…'`, escaped docstring text inside a triple-quoted string, comment lines inside a comment),
+the Python lexer ends in code state or in a `#` comment: every literal the template opens is
+closed by the template's own quotes, whatever the environment makes of the `if`/`for` structure.
+That the analysis succeeds also means that at every `{{ … }}` site every lexical state that the
+control flow can produce is one that `Model/Sites.allowed` permits for the site's class. -/
+theorem template_lexically_closed (name : String) (t : List Tpl)
+    (ht : Dcg.Gen.TemplateAst.templates.lookup name = some t) (ctx : List (String × Val)) (o : Out)
+    (hr : renderTemplate ctx t = .ok o) (hv : NeutralValues o) :
+    lexGood (lexAuto.run .code o.text) = true := by
+  have hv := neutralValues_all hr hv
+  have hc : check lexAuto .code lexGood [] [] t = true := by
+    have hall := Dcg.Proofs.TemplateCheckLex.lexCheckAll_ok
+    unfold Dcg.Proofs.TemplateCheckLex.lexCheckAll at hall
+    have hm : (name, t) ∈ Dcg.Gen.TemplateAst.templates := mem_of_lookup ht
+    exact List.all_eq_true.mp hall (name, t) hm
+  exact lex_check_sound [] [] t hc ctx o hr (Consistent_nil _) hv
+
+/-- **Every interpolation is made in a lexical state its class may occupy — in every rendering.**
+For every template, every environment and every interpolation `s` made outside a
+`{% filter %}` block: the rendered text is `s.before ++ s.value ++ rest`, and the lexer state
+reached on `s.before` is one that `Model/Sites.allowed` permits for the reviewed class of the
+site's expression (schema text only inside a triple-quoted string and only through
+`escape_docstring`, a TypedDict key only inside `'…'`, identifiers / type hints / repr values in
+code, comment lines in a comment; no quote or backslash pending).  This is the per-site statement
+that the table-based `site_safe` only asserted of the Python analysis' output; here it is proved
+of the renderings themselves.  (Interpolations inside the `indent(4)` filter block — the two sites
+of the included Config templates — are covered by this theorem applied to `pydantic/Config.jinja2`
+and `pydantic_v2/ConfigDict.jinja2` themselves, which the block includes in code state.) -/
+theorem sites_in_allowed_states (name : String) (t : List Tpl)
+    (ht : Dcg.Gen.TemplateAst.templates.lookup name = some t) (ctx : List (String × Val)) (o : Out)
+    (hr : renderTemplate ctx t = .ok o) (hv : NeutralValues o) :
+    ∀ s ∈ o.sites, siteAllowed s.expr (lexAuto.run .code s.before) = true ∧
+      ∃ rest, o.text = s.before ++ s.value ++ rest := by
+  have hv := neutralValues_all hr hv
+  have hc : check lexAuto .code lexGood [] [] t = true := by
+    have hall := Dcg.Proofs.TemplateCheckLex.lexCheckAll_ok
+    unfold Dcg.Proofs.TemplateCheckLex.lexCheckAll at hall
+    exact List.all_eq_true.mp hall (name, t) (mem_of_lookup ht)
+  intro s hs
+  obtain ⟨qs, hq⟩ := Dcg.Proofs.TemplateSites.sites_allowed_of_check lexSound .code lexGood [] [] t hc ctx o hr
+    (Consistent_nil _) hv s hs
+  refine ⟨?_, Dcg.Proofs.TemplateSites.renderTemplate_positioned hr s hs⟩
+  have hq' : lslot s.expr (lexAuto.run .code s.before) = some qs := hq
+  unfold lslot at hq'
+  split at hq'
+  · assumption
+  · cases hq'
+
+/-- **The Python site table is what the Lean analysis computes.** The table `Gen/Templates` (sites
+with their lexical states, final states) written by the data-flow analysis in
+`vlib/translate/templates.py` equals, row by row, the per-site state sets of the sound Lean
+analysis over the template ASTs — the Python analysis is checked by the kernel on every run instead
+of being trusted, and `site_safe` above is a statement about the verified analysis. -/
+theorem python_site_table_is_lean_analysis : Dcg.Proofs.TemplateCheckTable.tableAgrees = true :=
+  Dcg.Proofs.TemplateCheckTable.tableAgrees_ok
+
+/-- values of plain characters (no quote, backslash, `#`, line break) — identifiers, dotted names,
+base lists, type hints without string literals — satisfy the hypothesis at every site -/
+theorem plain_values_lexically_neutral (e : Expr) (v : List Char)
+    (h : ∀ c ∈ v, plainCh c = true) : LexHyp e v := lexHyp_of_plain e v h
+
+/-- non-vacuity of the two theorems above: a rendering of the functional TypedDict template with a
+key that is not an identifier and a described class; all its values satisfy the hypothesis -/
+example : ∃ o, renderTemplate [("class_name", .str "M".toList), ("description", .str "a \"doc\"".toList),
+      ("all_fields", .list [.dict [("key", .str "a b".toList), ("type_hint", .str "str".toList)]])]
+      Dcg.Gen.TemplateAst.t_TypedDictFunction = .ok o ∧ o.sites.length = 5 ∧ NeutralValues o := by
+  refine ⟨_, rfl, by decide +kernel, ?_⟩
+  suffices h : ∀ p : Expr × List Char, p ∈ _ → LexHyp p.1 p.2 from fun p hp _ => h p hp
+  intro p hp
+  refine lexHypB_sound ?_
+  revert p
+  rw [← List.all_eq_true]
+  decide +kernel
+
+/-- non-vacuity: the hypothesis holds for an escaped docstring text that ends in two quotes and
+contains a newline, at a docstring site; and for a key inside `'…'` -/
+example : LexHyp (.filter (.filter (.name "description") .escapeDocstring) (.indent 4))
+    "say \"\"\\\"hi\n    there\"\"".toList := lexHypB_sound (by decide +kernel)
+example : LexHyp (.attr (.name "field") "key") "a\\'b".toList := lexHypB_sound (by decide +kernel)
+/-- …and fails for an unescaped triple quote in a docstring, and for a raw quote in a key -/
+example : lexHypB (.filter (.filter (.name "description") .escapeDocstring) (.indent 4)) "a\"\"\"b".toList = false := by
+  decide +kernel
+example : lexHypB (.attr (.name "field") "key") "a'b".toList = false := by decide +kernel
+
+end TemplateLex
+
+/-! ### Code-state sites written by Python code: class keywords (msgspec `tag_field=…, tag=…`) -/
+
+/-- **Class keyword values are generator-authored, repr-rendered, or a sanitised identifier between
+quotes.** Every `add_base_class_kwarg(name, value)` call of the generator (regenerated from the
+sources' AST on every run) passes a string constant, a `represented_default`, or an f-string that
+puts ONLY reviewed expressions (`field_name`: a sanitised identifier) between its hand-written
+quotes — the value class `reprValue` that `Model/Sites` assigns to the `{{ value }}` site of
+msgspec.jinja2 is thereby an obligation on the Python code, not an assumption.  Raw input (a wire
+name, an alias) between hand-written quotes breaks this theorem. -/
+theorem class_keyword_values_safe :
+    Dcg.Gen.CodeSites.kwargSites.all Dcg.Model.CodeSites.kwargSiteOK = true ∧
+    Dcg.Gen.CodeSites.kwargSites ≠ [] := by decide
 
 end Dcg.Props.C10
